@@ -60,6 +60,7 @@ package server
 
 //@ func listenServer.OnCReact
 //@   props C01 C03 C04 C12 C17
+//@   unreachable return 1
 //@   requires r != nil && c != nil && ls.Options != nil && core.EngineGlobal != nil
 //@   requires cq(c) != nil && cqwf(c) && (forall i int :: 0 <= i && i < cq(c).count ==> cqn(c, i) != r)
 //@   requires forall k int32 :: has(r.Body, k) ==> (r.Body[k] != nil && 0 <= k && k < 16384)
